@@ -43,6 +43,12 @@ func (x *Exec) execInstr(fr *Frame, b *ssa.BasicBlock, st *State, in ssa.Instruc
 		p := &Pointer{Base: ref, ObjT: et}
 		x.store(st, p, x.zeroValue(et))
 		fr.regs[in] = &Value{K: KPtr, T: in.Type(), P: p}
+		if nt, ok := et.(*types.Named); ok && nt.Obj().Pkg() != nil && nt.Obj().Pkg().Path() == "sync" && nt.Obj().Name() == "WaitGroup" {
+			// a new WaitGroup expects nothing and nothing has signalled it (ghost state, concurrency.go)
+			x.ghostSet(st, gWgAdd, IntSort, ref, IntLit(0))
+			x.ghostSet(st, gWgSpawn, IntSort, ref, IntLit(0))
+			x.ghostSet(st, gWgDone, IntSort, ref, IntLit(0))
+		}
 	case *ssa.UnOp:
 		fr.regs[in] = x.unop(fr, st, in)
 	case *ssa.BinOp:
@@ -211,9 +217,13 @@ func (x *Exec) execInstr(fr *Frame, b *ssa.BasicBlock, st *State, in ssa.Instruc
 	case *ssa.If, *ssa.Jump:
 		return
 	case *ssa.Go:
-		failf("go statement")
-	case *ssa.Select, *ssa.Send, *ssa.MakeChan:
-		failf("channel operation")
+		x.goStmt(fr, st, in)
+	case *ssa.Send:
+		x.chanSend(fr, st, in)
+	case *ssa.MakeChan:
+		fr.regs[in] = x.makeChan(fr, st, in)
+	case *ssa.Select:
+		failf("select statement")
 	default:
 		failf("unsupported instruction %T: %s", in, in)
 	}
@@ -321,7 +331,7 @@ func (x *Exec) unop(fr *Frame, st *State, in *ssa.UnOp) *Value {
 		}
 		return scalar(in.Type(), Sub(Neg(v.Term), IntLit(1)))
 	case token.ARROW:
-		failf("channel receive")
+		return x.chanRecv(fr, st, in)
 	}
 	failf("unsupported unary op %s", in.Op)
 	return nil
@@ -993,6 +1003,12 @@ func (x *Exec) rangeInit(fr *Frame, st *State, in *ssa.Range) *Value {
 		mi := x.mapInfoOf(it.mapT)
 		it.cell = &Cell{Name: "seen", T: nil, ID: x.cellID}
 		st.cells[it.cell] = &Value{K: KScalar, Term: constCurried(mi.kLeaves, BoolSort, False)}
+		x.cellID++
+		it.cnt = &Cell{Name: "itercount", T: types.Typ[types.Int], ID: x.cellID}
+		st.cells[it.cnt] = scalar(types.Typ[types.Int], IntLit(0))
+		x.cellsW[it.cnt] = true
+		it.present0 = x.mapPresent(st, it.mapT, it.mapR).String()
+		it.len0 = x.mapLen(st, it.mapT, it.mapR)
 	}
 	x.cellsW[it.cell] = true
 	fr.iters[in] = it
@@ -1036,6 +1052,20 @@ func (x *Exec) next(fr *Frame, st *State, in *ssa.Next) *Value {
 	x.assume(st, Implies(Not(okT), allSeen))
 	// ranging over a nil map yields nothing
 	x.assume(st, Implies(Eq(it.mapR, x.null()), Not(okT)))
+	// iteration count: as long as the map has not been written since the range started, the
+	// number of keys yielded is at most len(map), and equals it when the iteration ends
+	if it.cnt != nil {
+		if cv, ok := st.cells[it.cnt]; ok {
+			cnt := cv.Term
+			if present.String() == it.present0 {
+				x.assume(st, And(Ge(cnt, IntLit(0)), Implies(Eq(it.mapR, x.null()), Eq(cnt, IntLit(0)))))
+				x.assume(st, Implies(And(okT, Neq(it.mapR, x.null())), Lt(cnt, it.len0)))
+				x.assume(st, Implies(And(Not(okT), Neq(it.mapR, x.null())), Eq(cnt, it.len0)))
+			}
+			st.cells[it.cnt] = scalar(types.Typ[types.Int], Ite(okT, Add(cnt, IntLit(1)), cnt))
+			x.cellsW[it.cnt] = true
+		}
+	}
 	// (when ok is false the loop is left and the extra key is harmless: 'seen' only grows)
 	nseen := storeN(seen, ks, True)
 	st.cells[it.cell] = &Value{K: KScalar, Term: x.name("seen", nseen)}
